@@ -285,7 +285,23 @@ func runJSONFormatters(rc *RunCtx) {
 	sim := rc.Sim
 	n := 1 + tp.Choose(8, "n")
 	var descs []string
+	type kept struct {
+		e   *el.Event
+		val []byte
+		i   int
+	}
+	var keptVals []kept
 	sim.Spawn("formatter-client", func() {
+		defer func() {
+			// what was stored for an event must not change when later events are formatted
+			for _, k := range keptVals {
+				now, ok := k.e.Format(el.JSONFormat)
+				if !ok || !bytes.Equal(now, k.val) {
+					rc.Failf("C14.stored-value-changed", "", "the json value stored for event %d changed after later events were formatted: %q became %q", k.i, truncate(string(k.val), 120), truncate(string(now), 120))
+					return
+				}
+			}
+		}()
 		for i := 0; i < n; i++ {
 			tp.Mark()
 			payload, payloadCopy, encodable := genPair(tp, 1+tp.Choose(3, "depth"))
@@ -360,6 +376,7 @@ func runJSONFormatters(rc *RunCtx) {
 				continue
 			}
 			checkJSONLine(rc, "C14.json", val, typ, created, payloadCopy)
+			keptVals = append(keptVals, kept{e, append([]byte(nil), val...), i})
 			switch {
 			case which == 1 && predMode == 3:
 				if err == nil || out != nil {
@@ -699,7 +716,22 @@ func runCloudEvents(rc *RunCtx) {
 	n := 1 + tp.Choose(8, "n")
 	var descs []string
 	freshIDs := map[string]int{}
+	type keptCE struct {
+		e   *el.Event
+		val []byte
+		i   int
+	}
+	var keptVals []keptCE
 	sim.Spawn("ce-client", func() {
+		defer func() {
+			for _, k := range keptVals {
+				now, ok := k.e.Format(storeKey)
+				if !ok || !bytes.Equal(now, k.val) {
+					rc.Failf("C18.stored-document-changed", "", "the document stored for event %d changed after later events were formatted: %q became %q", k.i, truncate(string(k.val), 120), truncate(string(now), 120))
+					return
+				}
+			}
+		}()
 		for i := 0; i < n; i++ {
 			tp.Mark()
 			typ := []string{"signed-type", "plain-type", "other-signed", "signed-type2"}[tp.Choose(4, "type")]
@@ -780,6 +812,7 @@ func runCloudEvents(rc *RunCtx) {
 				rc.Failf("C18.not-stored", "", "nothing stored under %s", storeKey)
 				continue
 			}
+			keptVals = append(keptVals, keptCE{e, append([]byte(nil), val...), i})
 			// parse the document back
 			var doc map[string]json.RawMessage
 			if jerr := json.Unmarshal(val, &doc); jerr != nil {
